@@ -36,9 +36,6 @@ def generate(rng, tier):
         r = rng.random()
         if r < 0.62:
             st = sigworld.gen_sign_step(rng, sid, knames, full_options=rng.random() < 0.6)
-            if st['kind'] == 'cleartext':
-                # PGPy cannot re-load an armored cleartext message that is not pure ASCII (C10/C11 territory)
-                st['text'] = st['text'].encode('ascii', 'replace').decode('ascii')
             st['perturb'] = rng.sample(['armor', 'reframe_old', 'reframe_5', 'crlf'], rng.choice([0, 0, 1, 2]))
             steps.append(st)
         elif r < 0.8:
